@@ -14,6 +14,24 @@ from .core import (esort, epack, eunpack, BOOL, FN, INT, NONE, NONEV, NUM, NUMTY
                    strv, to_real, val_eq, val_ite)
 
 
+def _has_quantifier(e, _memo={}):
+    k = e.get_id()
+    if k in _memo:
+        return _memo[k]
+    stack, seen, found = [e], set(), False
+    while stack and not found:
+        x = stack.pop()
+        if x.get_id() in seen:
+            continue
+        seen.add(x.get_id())
+        if z3.is_quantifier(x):
+            found = True
+        else:
+            stack.extend(x.children())
+    _memo[k] = found
+    return found
+
+
 class Obligation:
     def __init__(self, name, hyps, goal, expect="valid", trace=(), info=None):
         self.name, self.hyps, self.goal, self.expect = name, list(hyps), goal, expect
@@ -569,8 +587,35 @@ class Exec:
                     continue
                 st2 = st1.copy()
                 st2.assume(cs)
+                if self.dead_branch(st2):
+                    continue
                 st2.trace.append(f"L{s.lineno}: {'if' if br else 'else'} `{_short(s.test)}`")
                 yield from self.run_block(body, st2)
+
+    def dead_branch(self, st):
+        """Branch pruning: the quantifier-free part of the path condition alone is contradictory (decided by z3 within
+        a small budget).  Dropping hypotheses only weakens them, so `unsat` here means the path is infeasible; anything
+        else keeps the branch.  (Quantified facts are never used for pruning.)"""
+        ground = [c for c in st.pc if not _has_quantifier(c)]
+        if len(ground) < 2:
+            return False
+        key = tuple(c.get_id() for c in ground)
+        cache = self.__dict__.setdefault("_dead_cache", {})
+        if key not in cache:
+            sol = z3.SolverFor("QF_AUFLIRA") if False else z3.Solver()
+            sol.set("timeout", 400)
+            for c in ground:
+                sol.add(c)
+            dead = sol.check() == z3.unsat
+            if dead:
+                from . import solve as _solve
+
+                # same rule as for proofs (DESIGN 0.4): an independent solver build has to agree
+                dead = (not _solve.CONFIRM) or _solve._z3_cli(sol.to_smt2(), 5) == "unsat"
+            cache[key] = dead
+            if cache[key]:
+                self.pruned = getattr(self, "pruned", 0) + 1
+        return cache[key]
 
     def st_Try(self, s, st):
         if s.finalbody:
@@ -1206,6 +1251,16 @@ class Exec:
 
     def equals(self, a, b, st, node):
         """python == with dispatch to __eq__ contracts for objects."""
+        from .calls import ARITH_TAGS
+
+        for x, y in ((a, b), (b, a)):
+            if isinstance(x, Val) and isinstance(x.t, TOpaque) and x.t.tag in ARITH_TAGS and isinstance(y, (PyObj, FuncVal)):
+                import operator as _op
+
+                obj = getattr(y, "obj", None)
+                if obj is not None and getattr(obj, "__module__", "") in ("_operator", "operator"):
+                    yield st, z3.BoolVal(obj is getattr(_op, ARITH_TAGS[x.t.tag]))
+                    return
         if isinstance(a, Val) and isinstance(a.t, TRef):
             key = self.find_method(a.t.cls, "__eq__")
             if key is None:
